@@ -26,6 +26,12 @@ that many calls over {flip_parity, ensure_negative_parity} (x a data read, asarr
 every case of a thin header set is a behaviour of its own, checked by the same invariants plus EnsureAlwaysNegative
 (sign -1 after every ensure of every history).  Each history is replayed on ONE real object of its kind and compared with
 the spec's state after every call (sign, rows in both views, sky positions); judging stops at the first deviating call.
+Two more history families (length 3): (a) the WCS object records a pixel-grid size (wcs.pixel_shape, set directly or by
+building the WCS from a header with NAXISn) equal to, larger or smaller than the image - the spec mirrors about the image's
+own height, so the recorded size must not matter; (b) TWO Images over one pixel buffer (the second an alias or an
+overlapping row slice, with its own WCS object), calls going to either: the spec never writes the buffer (NonInterference,
+BufferUntouched, PeerSkyUnchanged, PeerOK), and after every call BOTH real objects are compared with their specified state
+(key ...:bystander when the object that was not called has moved on the sky); a written buffer alone is drift.
 """
 import itertools
 import math
@@ -48,6 +54,8 @@ CONSTANTS
  Headers <- MCHeaders
  RefX <- MCRefX
  RefY <- MCRefY
+ RecY <- MCRecY
+ Peers <- MCPeers
  MaxHist = %d
 INVARIANT WellFormed
 INVARIANT SkyUnchanged
@@ -55,10 +63,14 @@ INVARIANT SamePicture
 INVARIANT SignTracksRows
 INVARIANT ViewsAgree
 INVARIANT EnsureAlwaysNegative
+INVARIANT PeerSkyUnchanged
+INVARIANT BufferUntouched
 INVARIANT Emit
 PROPERTY FlipOK
 PROPERTY EnsureOK
 PROPERTY TouchInvisible
+PROPERTY NonInterference
+PROPERTY PeerOK
 CHECK_DEADLOCK FALSE
 """
 
@@ -111,9 +123,10 @@ def history_headers(hdrs):
     return pick + [x for x in hdrs[-2:] if x not in pick]
 
 
-def mc_module(kinds, widths, heights, hdrs, refx, refy, maxhist=0):
+def mc_module(kinds, widths, heights, hdrs, refx, refy, maxhist=0, recy=((0, 0),), peers=("none",)):
     defs = [("MCKinds", tla.lit(set(kinds))), ("MCWidths", tla.lit(set(widths))), ("MCHeights", tla.lit(set(heights))),
-            ("MCHeaders", tla.lit(set(hdrs))), ("MCRefX", tla.lit(set(refx))), ("MCRefY", tla.lit(set(refy)))]
+            ("MCHeaders", tla.lit(set(hdrs))), ("MCRefX", tla.lit(set(refx))), ("MCRefY", tla.lit(set(refy))),
+            ("MCRecY", tla.lit(set(recy))), ("MCPeers", tla.lit(set(peers)))]
     if maxhist == 0:
         defs.append('Emit == (cur = Start(orig)) => PrintT(<<"R", ToJson(Report)>>)')
     else:       # one record per complete call history
@@ -172,7 +185,9 @@ def replay_case(args):
     cls = "ImageDescription" if kind == "desc" else "Image"
     case = {"kind": cls, "width": w, "height": h, "CDELT": [c * SCALE for c in cdelt] if tuple(cdelt) != (1, 1) else [1, 1],
             "PC": pc if tuple(cdelt) != (1, 1) else None, "CD": [v * SCALE for v in rec["start"]["cd"]],
-            "CRPIX": [p[0] / 2.0, p[1] / 2.0], "CRVAL": list(crval), "data": backing, "before_the_call": touch}
+            "CRPIX": [p[0] / 2.0, p[1] / 2.0], "CRVAL": list(crval), "data": backing, "before_the_call": touch,
+            "wcs_records_grid": None if not o.get("nax") else [w + o["nax"] - h, o["nax"]],
+            "second_image_on_the_buffer": o.get("peer", "none")}
     res = []
     ncalls = 0
     both_views = backing != "array-F32" and has_data          # aspil() exists for bitmaps only
@@ -186,7 +201,22 @@ def replay_case(args):
         chans = [base % 251, base // 251, np.full_like(base, 7), np.full_like(base, 255)][:planes]
         return np.stack(chans, axis=2).astype(np.uint8)
 
-    def build():
+    def record_grid(wcs):
+        """the WCS object may remember the pixel grid it was made for (NAXISn of the header it came from) - which need not be
+        this image's size (a cut-out reusing the parent frame's WCS, a bitmap tagged with another file's header)"""
+        nax = o.get("nax", 0)
+        if not nax:
+            return wcs
+        if idx % 2:
+            wcs.pixel_shape = (w + nax - h, nax)
+            return wcs
+        from astropy.io import fits
+        hdr = fits.Header()
+        hdr["SIMPLE"], hdr["BITPIX"], hdr["NAXIS"], hdr["NAXIS1"], hdr["NAXIS2"] = True, -32, 2, w + nax - h, nax
+        hdr.extend(wcs.to_header(), update=True)
+        return WCS(hdr)
+
+    def make_wcs():
         wcs = WCS(naxis=2)
         wcs.wcs.ctype = ["RA---TAN", "DEC--TAN"]
         wcs.wcs.crval = list(crval)
@@ -197,6 +227,10 @@ def replay_case(args):
             wcs.wcs.pc = np.array(pc, dtype=float).reshape(2, 2)
             wcs.wcs.cdelt = [cdelt[0] * SCALE, cdelt[1] * SCALE]
         wcs.wcs.set()
+        return record_grid(wcs)
+
+    def build():
+        wcs = make_wcs()
         if backing == "array-F32":
             obj = Image.from_array(base.astype(np.float32), wcs=wcs)
         elif backing == "array-RGB":
@@ -366,6 +400,80 @@ def replay_case(args):
                 break                 # the object has left the specified path: later calls would be judged against the wrong state
         return res, ncalls
 
+    def replay_shared():
+        """two Images over one pixel buffer (the second an alias or an overlapping row slice, with its own WCS object); the calls
+        of rec["hist"] go to either; after EVERY call BOTH objects are compared with the spec: the one that was called, and the
+        bystander, whose pixels must not have moved on the sky"""
+        nonlocal ncalls
+        first, ph = rec["pfirst"], rec["ph"]
+        frame = bitmap(3) if idx % 2 else base.astype(np.float32)           # one writeable, C-contiguous buffer
+        objs = {"A": (Image.from_array(frame, wcs=make_wcs()), h, 0, "start", "world"),
+                "B": (Image.from_array(frame if o["peer"] == "alias" else frame[first:first + ph], wcs=make_wcs()), ph, first, "pstart", "pworld")}
+        what_b = {"alias": "the same array", "tail": "rows 1..h-1 of the same array", "head": "rows 0..h-2 of the same array"}[o["peer"]]
+
+        def look(name):
+            obj, hh, off, _, _ = objs[name]
+            xs2, ys2 = np.meshgrid(np.arange(w), np.arange(hh))
+            px = np.stack([xs2.ravel(), ys2.ravel()], axis=1).astype(float)
+            return {"sign": obj.get_parity_sign(), "sky": obj.wcs.wcs_pix2world(px, 0), "img": obj.wcs.wcs.p2s(px + 1.0, 1)["imgcrd"],
+                    "ident": ident_of(obj.asarray()), "shape": tuple(obj.shape)}
+
+        def deviates(name, ob, ob_start, snap, table):
+            """None, or (what, text): how the real object differs from the specified one"""
+            _, hh, off, _, _ = objs[name]
+            if ob["sign"] != snap["sign"]:
+                return "sign", "parity sign %+d, specified %+d" % (ob["sign"], snap["sign"])
+            exp = np.array([[r * w + x for x in range(w)] for r in snap["rows"]])
+            if ob["ident"].shape != exp.shape or not bool((ob["ident"] == exp).all()):
+                got = [int(r[0]) // w for r in ob["ident"]] if ob["ident"].ndim == 2 and ob["ident"].shape[1] == w else ob["ident"].shape
+                return "rows", "it shows the frame rows %s, specified %s" % (got, snap["rows"])
+            src = np.array([(r - off) * w + x for r in snap["rows"] for x in range(w)])
+            sep = float(_sep_deg(ob["sky"], ob_start["sky"][src]).max())
+            if not sep <= TOL_DEG:
+                return "sky", "its pixels moved on the sky by up to %.3g deg" % sep
+            expw = np.array(table, dtype=float).reshape(hh * w, 2) * (SCALE / 2.0)
+            if not np.allclose(ob["img"], expw, rtol=1e-9, atol=1e-13):
+                return "sky", "its linear WCS stage differs from the specified world table"
+            return None
+
+        start = {n: look(n) for n in objs}
+        for n in objs:
+            if deviates(n, start[n], start[n], rec[objs[n][3]], rec[objs[n][4]]) is not None:
+                return [("M", "build", "shared-buffer object %s is not in the specified start state: %r" % (n, case), case)], 0
+        done = []
+        for act, step in zip(rec["hist"], rec["trace"]):
+            tgt = "B" if act.endswith("B") else "A"
+            op = "flip_parity" if act.startswith("flip") else "ensure_negative_parity"
+            getattr(objs[tgt][0], op)()
+            ncalls += 1
+            done.append("%s.%s()" % (tgt, op))
+            hist_txt = " [two Images, B wraps %s; calls so far: %s]" % (what_b, ", ".join(done))
+            stop = False
+            for n in ("A", "B"):
+                snap, table = (step["snap"], step["world"]) if n == "A" else (step["psnap"], step["pworld"])
+                dev = deviates(n, look(n), start[n], snap, table)
+                if dev is None:
+                    continue
+                stop = True
+                if n == tgt:
+                    what = dev[0] if not (op == "ensure_negative_parity" and dev[0] == "rows") else "sky"
+                    bad("V", op, what, "after %s: %s%s" % (done[-1], dev[1], hist_txt))
+                else:
+                    bad("V", op, "bystander", "%s changed Image %s, which was not called: %s%s" % (done[-1], n, dev[1], hist_txt))
+            frame_ids = ident_of(frame)
+            if not bool((frame_ids == base).all()):
+                bad("D", op, "buffer", "the caller's pixel buffer was written by %s%s" % (done[-1], hist_txt))
+            if stop:
+                break
+        return res, ncalls
+
+    if "hist" in rec and o.get("peer", "none") != "none":
+        try:
+            return replay_shared()
+        except Exception as e:  # noqa
+            import traceback
+            bad("V", "flip_parity", "raises", "parity operations raised %r in shared-buffer history %s (%s)" % (e, rec["hist"], traceback.format_exc().splitlines()[-3].strip()))
+            return res, ncalls
     if "hist" in rec:
         try:
             return replay_history()
@@ -475,7 +583,9 @@ def run(ctx):
                 "header - PIL-backed Image in 4 backings x 5 pre-call histories); every case is replayed: flip, flip, and on a fresh "
                 "object ensure, ensure; data read back through asarray() and aspil(). In addition TLC generates every call history of "
                 "length 4 (thorough 5) over {flip, ensure} (x touch for PIL-backed) for a thin header set; each is replayed on one real "
-                "object and compared after every call. distinct = distinct (case, history); every case is non-trivial "
+                "object and compared after every call; further histories of length 3 with WCS objects that record a grid size (equal / larger / "
+                "smaller than the image) and with two Images sharing one buffer (alias, overlapping slices; both judged after every call). "
+                "distinct = distinct (case, history); every case is non-trivial "
                 "(non-singular WCS, >= 1 pixel)")
     if ctx.quick:
         hdrs = headers(ctx.rng, 8, every_pc_form=2)
@@ -512,7 +622,23 @@ def run(ctx):
         if len(got) != n_expected:
             ctx.machinery("TLC emitted %d call histories, expected %d" % (len(got), n_expected))
         hist_recs += got
-    hist_recs.sort(key=lambda q: (q["orig"]["kind"], q["orig"]["w"], q["orig"]["h"], q["orig"]["cdelt"], q["orig"]["pc"], q["orig"]["p"], q["hist"]))
+    # ---- WCS objects that record a pixel-grid size (equal to / larger / smaller than the image), and two Images over one buffer
+    H2 = 3
+    rec3 = [(0, 1), (3, 1), (-1, 1)]                    # recorded NAXIS2 = h, h + 3, h - 1
+    ry1 = refy[:1] if ctx.quick else refy[:2]
+    hshare = hh[::3] if ctx.quick else hh[::2]
+    extra_runs = [(["image", "desc"], hh[::2], widths[-1:], heights[-2:], ry1, rec3, ["none"], 2),
+                  (["pil"], hh[::6], widths[-1:], heights[-1:], ry1, rec3, ["none"], 3),
+                  (["image"], hshare, widths[-1:], heights[-1:], refy[:1], [(0, 0)], ["alias", "tail", "head"], 4)]
+    for kinds, hd, ws, hs, ry, recy, peers, nact in extra_runs:
+        r = ctx.tlc("MCParity", extra={"MCParity.tla": mc_module(kinds, ws, hs, hd, refx[:1], ry, H2, recy, peers)},
+                    cfg_text=CFG % H2, workers=8, timeout=3000)
+        got = r.json_lines("H")
+        n_expected = len(kinds) * len(ws) * len(hd) * sum(len({a + b * h for a, b in ry}) for h in hs) * len(recy) * len(peers) * nact ** H2
+        if len(got) != n_expected:
+            ctx.machinery("TLC emitted %d call histories, expected %d" % (len(got), n_expected))
+        hist_recs += got
+    hist_recs.sort(key=lambda q: (q["orig"]["kind"], q["orig"]["w"], q["orig"]["h"], q["orig"]["cdelt"], q["orig"]["pc"], q["orig"]["p"], q["orig"]["nax"], q["orig"]["peer"], q["hist"]))
     ctx.note("call_histories", len(hist_recs))
     recs.sort(key=lambda q: (q["orig"]["kind"], q["orig"]["w"], q["orig"]["h"], q["orig"]["cdelt"], q["orig"]["pc"], q["orig"]["p"]))
     # png files for the ImageLoader-backed objects (one per size; written before the pool starts)
@@ -538,7 +664,7 @@ def run(ctx):
         ctx.count(ncalls)
         ctx.trace_ok()
         o = rec["orig"]
-        ctx.distinct((o["kind"], o["w"], o["h"], tuple(o["cdelt"]), tuple(o["pc"]), tuple(o["p"]), tuple(rec.get("hist", ()))))
+        ctx.distinct((o["kind"], o["w"], o["h"], tuple(o["cdelt"]), tuple(o["pc"]), tuple(o["p"]), o.get("nax", 0), o.get("peer", "none"), tuple(rec.get("hist", ()))))
         for sev, key, msg, case in res:
             if sev == "V":
                 ctx.violation("C16:" + key, "%s [%s %dx%d, CD=%s, CRPIX=%s, CRVAL=%s]" % (msg, case["kind"], case["height"], case["width"], case["CD"], case["CRPIX"], case["CRVAL"]),
